@@ -1,10 +1,11 @@
-"""C19 — configuration of the check (deductive tier under construction)."""
+"""C19 — An error while processing any tile is reported, never swallowed by parallelism."""
 PROPERTY = "C19"
 LEVEL = "other"
-CONTRACT_MODULES = ["contracts.specfuns"]
+CONTRACT_MODULES = ["contracts.specfuns", "contracts.lemmas_desc", "contracts.pyramid", "contracts.parallel", "contracts.walk",
+                    "contracts.errors"]
 FUNCTIONS = []
 LEMMAS = []
 SLOW = ()
-TRUSTED_BASE = []
+TRUSTED_BASE = ["pyvc VC generator; z3/cvc5", "Process.join returns after the target returned or raised; exitcode != 0 iff it raised"]
 ASSUMPTIONS = []
-EXPLANATION = "bounded run-time tier only so far"
+EXPLANATION = "exceptional postconditions of the serial and parallel stages"
